@@ -852,8 +852,28 @@ func runC12(tier string, seed uint64) int {
 		m := &muts[pr.intn(len(muts))]
 		bad, extra := "loopdir", []FSEntry{{Path: "loopdir", Link: "loopdir"}}
 		var fault *Fault
-		switch pr.intn(6) {
+		bad2 := "orig"
+		switch pr.intn(9) {
 		case 0:
+		case 6, 7, 8:
+			// directories that exist and hold manifest-named files, none of which holds a document (an empty file, comments
+			// only, separators only, blanks only), and a directory with nothing in it: "nothing to analyse" on one side or both
+			void := func(name string) []FSEntry {
+				e := []FSEntry{{Path: name, Dir: true}}
+				for i, n := 0, pr.between(0, 3); i < n; i++ {
+					e = append(e, FSEntry{Path: fmt.Sprintf("%s/v%d.%s", name, i, pick(pr, []string{"yaml", "yml", "json"})),
+						Text: pick(pr, []string{"", "# nothing here\n", "---\n---\n", " \n\t\n", "---\n# only a comment\n...\n"})})
+				}
+				return e
+			}
+			bad, extra = "void1", void("void1")
+			if pr.chance(2, 3) {
+				bad2 = "void2"
+				extra = append(extra, void("void2")...)
+				if pr.chance(1, 4) {
+					bad2 = "void1"
+				}
+			}
 		case 1:
 			bad = "orig/d000.yaml/sub" // ENOTDIR
 			extra = nil
@@ -868,7 +888,7 @@ func runC12(tier string, seed uint64) int {
 				fault = &Fault{Syscall: pick(pr, []string{"newfstatat", "openat"}), Path: "m", Errno: pick(pr, []string{"EACCES", "EIO", "ELOOP", "ENOTDIR"}), When: pr.between(1, 2)}
 			}
 		}
-		cli := pick(pr, [][]string{{"list", "--dirpath", bad}, {"diff", "--dir1", bad, "--dir2", "orig"}, {"diff", "--dir1", "orig", "--dir2", bad}, {"diff", "--dir1", bad, "--dir2", "orig", "--fail"},
+		cli := pick(pr, [][]string{{"list", "--dirpath", bad}, {"diff", "--dir1", bad, "--dir2", bad2}, {"diff", "--dir1", bad2, "--dir2", bad, "-o", "md"}, {"diff", "--dir1", bad, "--dir2", bad2, "--fail"},
 			{"eval", "--dirpath", bad, "-s", "a", "-d", "b", "-p", "80"}, {"list", "--dirpath", bad, "--exposure", "--fail"}})
 		procs = append(procs, procCase{m: m, real: true, cli: cli, fault: fault, extra: extra})
 	}
